@@ -118,6 +118,18 @@ func init() {
 		"gpt Table.Write / toGPTBytes: random-freedom when every GUID is given (only initEntry, initTable and toPartitionArrayBytes carry that conditional clause); mbr Table.Write; 'rewriting a table read from disk changes nothing' beyond the non-empty disk GUID",
 		"fat32 writeBootSector/writeFsis/SetLabel (reached through function-valued hooks)",
 	}
+	propAssumptions["C18"] = []string{
+		"scope: the functions listed under functions_under_contract - decoders that take bytes straight from the device and the three FAT Read functions; their inputs are unconstrained except for what the caller itself checked (stated as requires and proved at the call sites under contract)",
+		"block size / volume size / start offset parameters come from the caller, not from the image (size < 2^50)",
+		"foreign code called by the decoders (encoding/binary, regexp, fmt, strings, unicode/utf16) does not panic",
+		"allocation bound: each make() in fat12/16/32.Read is bounded by the stated volume size (or by 2^31/2^32 when the size is given as 0 = unknown); table constructors are bounded by their byte-size argument",
+	}
+	propNotDecided["C18"] = []string{
+		"listing directories and reading files of a damaged image (FAT cluster-chain walks incl. cycles - D17, FAT/iso9660/ext4/squashfs directory and inode decoding loops, squashfs metadata and fragment readers)",
+		"iso9660.Read, ext4.Read, squashfs.Read as wholes; iso9660 parseDirEntries/parseDirEntriesJoliet, supplementary volume descriptor, SUSP/Rock Ridge extension parsers",
+		"termination ('no endless loop') except where a loop carries a variant (none of the loops in this check read their bound from the image without a check)",
+		"total allocation over a call",
+	}
 	propAssumptions["C12"] = []string{"partition.Read: GPT is probed before MBR (call-site assertions); filesystem probing in disk.GetFilesystem is not under contract"}
 	propNotDecided["C12"] = []string{"filesystem type recognition (disk.GetFilesystem and the per-filesystem Read acceptance tests)", "stale bytes of a previous filesystem", "labels and contents"}
 }
